@@ -155,6 +155,10 @@ func c04Cases(g *Gen, n int, thorough bool) []*Case {
 	for _, op := range wrapOps {
 		mk(g.WrapOp(op, g.LeafOp("new"), 2), 3)
 	}
+	// multi-cause nodes with a single branch (Join(nil, x), a foreign type with one cause)
+	mk(g.MultiOp("joinraw", []*R{g.LeafOp("new")}), 3)
+	mk(g.MultiOp("umulti", []*R{g.WrapOp("hint", g.LeafOp("goerr"), 2)}), 3)
+	mk(g.WrapOp("wrap", g.MultiOp("stdjoin", []*R{g.LeafOp("sentinel")}), 2), 3)
 	mk(g.node("newfw", []string{"ctx: %w"}, nil, g.LeafOp("new")), 4)
 	mk(g.node("newfe", []string{"failed %v"}, nil, g.LeafOp("goerr")), 4)
 	for _, op := range multiOps {
